@@ -11,7 +11,7 @@ lazy_static! {
     /// ISO 8601 timestamp format
     static ref ISO_8601_REGEX: Regex = Regex::new(
         r"(?x)^
-        (?P<year>\d{4})-?
+        (?P<year>[0-9]{4})-?
         (?P<month>0[1-9]|1[0-2])-?
         (?P<day>0[1-9]|[12][0-9]|3[01])
         T
